@@ -1,1 +1,195 @@
-def main : IO Unit := IO.println "driver C04: not built yet"
+import VncModel.Basic.Proto
+import VncModel.Robust.Stream
+/-! Line-protocol driver for the C04 model (same script as harness/c04.c). -/
+open VncModel VncModel.Robust VncModel.Proto VncModel.Gen.C04
+
+structure CRec where
+  st : Status
+  stopread : Bool := false
+  everReq : Bool := false
+
+structure DState where
+  cfg : Cfg := ⟨64, 48, 4, false, false, false, false, false, false, 20000⟩
+  started : Bool := false
+  conns : List (Nat × CRec) := []
+
+def findConn (s : DState) (id : Nat) : Option CRec := (s.conns.find? (fun p => p.1 == id)).map (·.2)
+def setConn (s : DState) (id : Nat) (r : CRec) : DState :=
+  { s with conns := (id, r) :: s.conns.filter (fun p => p.1 != id) }
+
+def aclass (n : Nat) : String :=
+  if n ≤ 65536 then "s" else if n ≤ 1048576 + 65536 then "m" else if n ≤ 2147483648 + 65536 then "l" else "x"
+
+def phaseNum : Phase → Nat
+  | .version => 0 | .secType => 1 | .auth => 2 | .init => 3 | .normal => 4
+
+def showR (id : Nat) (st : Status) (t : Tot) : String :=
+  match st with
+  | .unknown => s!"r {id} ?"
+  | _ =>
+    let s := match st with
+      | .isOpen c => s!"open:{phaseNum c.phase}"
+      | _ => "closed:-1"
+    let a := if aclass t.amax == aclass t.amaxAlt then aclass t.amax else s!"{aclass t.amax}|{aclass t.amaxAlt}"
+    s!"r {id} {s} n={t.n} rw={t.rw} ww={t.ww} vt={t.vt} a={a}"
+
+def parseKV (s : DState) (tok : String) : Option DState :=
+  match tok.splitOn "=" with
+  | [k, v] =>
+    match v.toNat? with
+    | none => none
+    | some n =>
+      let c := s.cfg
+      if k = "w" then some { s with cfg := { c with w := n } }
+      else if k = "h" then some { s with cfg := { c with h := n } }
+      else if k = "bpp" then some { s with cfg := { c with bytespp := n } }
+      else if k = "pw" then some { s with cfg := { c with pw := n != 0 } }
+      else if k = "ft" then some { s with cfg := { c with ft := n != 0 } }
+      else if k = "tight" then some { s with cfg := { c with tight := n != 0 } }
+      else if k = "xvp" then some { s with cfg := { c with xvp := n != 0 } }
+      else if k = "utf8" then some { s with cfg := { c with utf8 := n != 0 } }
+      else if k = "view" then some { s with cfg := { c with view := n != 0 } }
+      else if k = "wait" then some { s with cfg := { c with wait := n } }
+      else if k = "sdh" ∨ k = "wenc" then some s
+      else none
+  | _ => none
+
+def isRfbPrefix : List UInt8 → Bool
+  | 82 :: 70 :: 66 :: 32 :: _ => true
+  | _ => false
+def isGetPrefix : List UInt8 → Bool
+  | 71 :: 69 :: 84 :: 32 :: _ => true
+  | _ => false
+
+/-- after the message rounds: the update a stop-reading peer asked for cannot be written -/
+def afterRounds (cfg : Cfg) (rec : CRec) (st : Status) (t : Tot) : Status × Tot :=
+  match st with
+  | .isOpen c =>
+    if rec.stopread then
+      if t.updWrite && !c.scaled then (.closed, writeBlocked cfg t)
+      else if t.updReq || rec.everReq then (.unknown, t)
+      else (st, t)
+    else (st, t)
+  | _ => (st, t)
+
+def dstep (s : DState) (toks : List String) : DState × List String :=
+  match toks with
+  | "cfg" :: kvs =>
+    if s.started then (s, ["bad-op"]) else
+    match kvs.foldl (fun (acc : Option DState) tok => acc.bind (fun st => parseKV st tok)) (some s) with
+    | some s' => (s', ["ok"])
+    | none => (s, ["bad-op"])
+  | ["start"] => if s.started then (s, ["bad-op"]) else ({ s with started := true }, ["ok"])
+  | ["conn", id, pre] =>
+    if !s.started then (s, ["bad-op"]) else
+    match id.toNat?, unhex? pre with
+    | some id, some pre =>
+      let live := match findConn s id with
+        | some r => (match r.st with | .closed => false | _ => true)
+        | none => false
+      if id == 0 || decide (id ≥ 16) || live then (s, ["bad-op"]) else
+      let base : Tot := { amax := sizeofClientRec, amaxAlt := sizeofClientRec }
+      let (st, t) : Status × Tot :=
+        if pre.isEmpty then
+          (.isOpen {}, { base with rw := 1, vt := wsConnectWaitMs })
+        else if pre.length < 4 then (.unknown, base)
+        else if isRfbPrefix pre then run s.cfg {} (pre.length + 1) {} pre base
+        else if isGetPrefix pre then (.unknown, base)
+        else match pre with
+          | b :: _ => if b = 0x16 ∨ b = 0x80 then (.unknown, base) else (.closed, base)
+          | [] => (.closed, base)
+      (setConn s id { st := st }, [showR id st t])
+    | _, _ => (s, ["bad-op"])
+  | "send" :: id :: hexs :: opts =>
+    if !s.started then (s, ["bad-op"]) else
+    match id.toNat?, unhex? hexs with
+    | some id, some bytes =>
+      match findConn s id with
+      | none => (s, ["bad-op"])
+      | some rec =>
+        if id = 0 then (s, ["bad-op"]) else
+        match rec.st with
+        | .unknown => (s, [showR id .unknown {}])
+        | .closed => (s, [showR id .closed {}])
+        | .isOpen c =>
+          let eof := opts.contains "eof"
+          let (st0, t0) := runSend s.cfg { eof := eof, stopread := rec.stopread } c bytes
+          let (st, t) := afterRounds s.cfg rec st0 t0
+          (setConn s id { rec with st := st, everReq := rec.everReq || t.updReq }, [showR id st t])
+    | _, _ => (s, ["bad-op"])
+  | ["auth", id, kind] =>
+    if !s.started then (s, ["bad-op"]) else
+    match id.toNat? with
+    | none => (s, ["bad-op"])
+    | some id =>
+      match findConn s id with
+      | none => (s, ["bad-op"])
+      | some rec =>
+        if id = 0 then (s, ["bad-op"]) else
+        match rec.st with
+        | .unknown => (s, [showR id .unknown {}])
+        | .closed => (s, [showR id .closed {}])
+        | .isOpen c =>
+          let k? : Option AuthKind := if kind = "ok" then some .ok else if kind = "bad" then some .bad
+            else if kind = "short" then some .short else none
+          match k? with
+          | none => (s, ["bad-op"])
+          | some k =>
+            if c.phase != .auth ∨ rec.stopread then (setConn s id { rec with st := .unknown }, [showR id .unknown {}]) else
+            let r := handleAuth c k
+            let t : Tot := { n := 1 }
+            let (st, t) : Status × Tot := match r.out with
+              | .cont => (.isOpen r.conn, t)
+              | .starved => (.closed, readBlocked s.cfg t)
+              | _ => (.closed, t)
+            (setConn s id { rec with st := st }, [showR id st t])
+  | ["reset", id] =>
+    if !s.started then (s, ["bad-op"]) else
+    match id.toNat? with
+    | none => (s, ["bad-op"])
+    | some id =>
+      match findConn s id with
+      | none => (s, ["bad-op"])
+      | some rec =>
+        if id = 0 then (s, ["bad-op"]) else
+        match rec.st with
+        | .unknown => (s, [showR id .unknown {}])
+        | .closed => (s, [showR id .closed {}])
+        | .isOpen _ => (setConn s id { rec with st := .closed }, [showR id .closed { n := 1 }])
+  | ["stopread", id] =>
+    if !s.started then (s, ["bad-op"]) else
+    match id.toNat? with
+    | none => (s, ["bad-op"])
+    | some id =>
+      match findConn s id with
+      | none => (s, ["bad-op"])
+      | some rec =>
+        if id = 0 then (s, ["bad-op"]) else
+        let st := match rec.st with
+          | .isOpen c => if rec.everReq then Status.unknown else .isOpen c
+          | o => o
+        (setConn s id { rec with st := st, stopread := true }, ["ok"])
+  | ["tick", seed] =>
+    if !s.started then (s, ["bad-op"]) else
+    match seed.toNat? with
+    | some _ => (s, ["ok"])
+    | none => (s, ["bad-op"])
+  | "app" :: what :: args =>
+    if !s.started then (s, ["bad-op"]) else
+    let good := (what = "copyrects" ∧ args.length = 1) ∨ (what = "cuttext" ∧ args.length = 1) ∨
+      (what = "bell" ∧ args.length = 0) ∨ (what = "copy" ∧ args.length = 6)
+    if !good then (s, ["bad-op"]) else
+    -- a server-initiated write blocks on a stop-reading peer: its fate is not modelled
+    let conns := s.conns.map (fun (p : Nat × CRec) =>
+      match p.2.st with
+      | .isOpen _ => if p.2.stopread then (p.1, { p.2 with st := .unknown }) else p
+      | _ => p)
+    ({ s with conns := conns }, ["ok"])
+  | ["end"] =>
+    if !s.started then (s, ["bad-op"]) else
+    let unk := s.conns.any (fun p => match p.2.st with | .unknown => true | _ => false)
+    let opn := (s.conns.filter (fun p => match p.2.st with | .isOpen _ => true | _ => false)).length
+    (s, [if unk then "end ?" else s!"end {opn + 1}"])
+  | _ => (s, ["bad-op"])
+
+def main : IO Unit := runDriver ({} : DState) dstep
